@@ -159,6 +159,16 @@ theorem stepThread_local (orig : Int) (ho : orig ≠ -1) {sh sh' : Shared} {th t
     simp only [stepThread, Option.some.injEq, Prod.mk.injEq] at h
     obtain ⟨rfl, rfl, rfl⟩ := h
     fdc_close
+  | dupLoadF =>
+    simp only [stepThread] at h
+    split at h <;>
+    · simp only [Option.some.injEq, Prod.mk.injEq] at h
+      obtain ⟨rfl, rfl, rfl⟩ := h
+      fdc_close
+  | dupSysF v =>
+    simp only [stepThread, Option.some.injEq, Prod.mk.injEq] at h
+    obtain ⟨rfl, rfl, rfl⟩ := h
+    fdc_close
   | dropDec =>
     simp only [stepThread, decrement] at h
     split at h <;>
